@@ -479,6 +479,11 @@ func describeFaults(script []pfault) string {
 
 var pipeRunCounter int
 
+// pipeExecuteWatchdog bounds one Execute call in real time
+// (VERIF_EXEC_WATCHDOG_S seconds, default 900). Exceeding it is an
+// infrastructure failure.
+var pipeExecuteWatchdog = time.Duration(common.EnvInt("VERIF_EXEC_WATCHDOG_S", 900)) * time.Second
+
 func runPipeline(t *testing.T, tr *common.Trace, sc *pipeScenario, script []pfault) []pcall {
 	pipeRunCounter++
 	c := sc.c
@@ -588,9 +593,12 @@ func runPipeline(t *testing.T, tr *common.Trace, sc *pipeScenario, script []pfau
 	var o outcome
 	select {
 	case o = <-done:
-	case <-time.After(120 * time.Second):
+	case <-time.After(pipeExecuteWatchdog):
+		// Real time, so this is never a verdict: the driver fails, which
+		// the check reports as inconclusive (exit 2). One run takes
+		// milliseconds; the limit only ends a genuinely wedged process.
 		tr.Close()
-		t.Fatalf("Execute did not return within 120 s (case %s, script %s)", prodDesc, describeFaults(script))
+		t.Fatalf("INFRASTRUCTURE: Execute did not return within %s (case %s, script %s)", pipeExecuteWatchdog, prodDesc, describeFaults(script))
 	}
 	if x.runner.err != nil {
 		panic(fmt.Errorf("fake runner: %w", x.runner.err))
